@@ -143,6 +143,19 @@ Definition ra_ragged_slice {A} (a : flat_ra A) (starts ends : list Z) : res (fla
   let en := map2 (fun e p => if e <? 0 then snd p + e else Z.min (fst p + e) (snd p)) ends (combine bs be) in
   let lens := map2 (fun e s => Z.max (e - s) 0) en st in
   rmap (fun d => (d, lens)) (np_take (fst a) (flat_indices (GRows (combine st lens)))).
+(* the part of ragged_slice that all input kinds share: base_starts / base_ends are the bounds of the region of `data` every window lives in *)
+Definition rslice_gen {A} (data : list A) (bs be starts ends : list Z) : res (flat_ra A) :=
+  let st := map2 Z.add bs starts in
+  let en := map2 (fun e p => if e <? 0 then snd p + e else Z.min (fst p + e) (snd p)) ends (combine bs be) in
+  let lens := map2 (fun e s => Z.max (e - s) 0) en st in
+  rmap (fun d => (d, lens)) (np_take data (flat_indices (GRows (combine st lens)))).
+(* a 1-D input: every window is cut from the same array (base_starts = 0, base_ends = size, broadcast to one per window) *)
+Definition ra_ragged_slice_1d {A} (d : list A) (starts ends : list Z) : res (flat_ra A) :=
+  rslice_gen d (map (fun _ => 0) starts) (map (fun _ => zlen d) starts) starts ends.
+(* a 2-D input with rows of width w: base_starts = arange(n) * w, base_ends = base_starts + w, on the flattened matrix *)
+Definition ra_ragged_slice_2d {A} (M : list (list A)) (w : Z) (starts ends : list Z) : res (flat_ra A) :=
+  let bs := map (fun i => Z.of_nat i * w) (seq 0 (length M)) in
+  rslice_gen (concat M) bs (map (fun b => b + w) bs) starts ends.
 Definition spec_ragged_slice {A} (rows : list (list A)) (starts ends : list Z) : list (list A) :=
   map2 (fun r se => let '(s, e) := se in
                     let e' := if e <? 0 then zlen r + e else Z.min e (zlen r) in
